@@ -168,6 +168,11 @@ class Report:
                     "evaluations": 0, "distinct_nontrivial": 0, "nonconformances": 0, "tlc_runs": []}
         self.assumptions = []
         self.known = [k for k in load_known() if k.get("property") == prop and k.get("status") == "open"]
+        d = os.path.join(VERIF, "replays", prop)
+        if os.path.isdir(d):                       # replays of earlier runs of this tier are stale
+            for f in os.listdir(d):
+                if f.startswith("viol_%s_" % tier):
+                    os.unlink(os.path.join(d, f))
 
     def add_tlc(self, r, what):
         self.cov["states"] += r.get("distinct", 0)
